@@ -37,6 +37,25 @@ pub fn nd(p: usize, span: Span, tag: &str, kids: Vec<T>) -> T {
     T::N { p, s: span.start(), e: span.end(), tag: tag.to_string(), kids }
 }
 
+/// a hand-written lexer over the same text: the lexemes the real lexer found, every third one cut to
+/// length zero — a REAL (not faulty) lexeme that covers no input, as an indentation-tracking lexer
+/// emits them. Action code must still receive it as `Ok`. `None` if the text does not lex.
+pub fn zero_width_variant<'a>(lexer: &dyn NonStreamingLexer<'a, LT>, inp: &'a str) -> Option<lrlex::LRNonStreamingLexer<'a, 'a, LT>> {
+    let mut ls = Vec::new();
+    for (i, r) in lexer.iter().enumerate() {
+        match r {
+            Ok(l) => ls.push(Ok(if i % 3 == 1 { Lx::new(l.tok_id(), l.span().start(), 0) } else { l })),
+            Err(_) => return None,
+        }
+    }
+    if ls.len() < 2 {
+        return None;
+    }
+    let mut nc = cfgrammar::NewlineCache::new();
+    nc.feed(inp);
+    Some(lrlex::LRNonStreamingLexer::new(inp, ls, nc))
+}
+
 pub fn fmt_t(t: &T, o: &mut String) {
     match t {
         T::N { p, s, e, tag, kids } => {
